@@ -563,6 +563,7 @@ func runC04(cfg Config) {
 		}
 	}
 	runC04Stores(cfg, rep, m, rng)
+	runGCSIndex(cfg, rep, m, rng)
 	rep.Write(cfg.Out)
 }
 
